@@ -46,6 +46,22 @@ class DetUUID:
         return uuid.UUID(int=self.r.getrandbits(128), version=4)
 
 
+def make_fake_datetime(clock):
+    """Stand-in for the `datetime` class seen by the admin modules: now() and
+    fromtimestamp() read the virtual clock."""
+    import datetime as _dt
+
+    class FakeDateTime(_dt.datetime):
+        @classmethod
+        def now(cls, tz=None):
+            return _dt.datetime.fromtimestamp(clock(), tz)
+
+        @classmethod
+        def utcnow(cls):
+            return _dt.datetime.utcfromtimestamp(clock())
+    return FakeDateTime
+
+
 class FakeTime:
     def __init__(self, clock, sleeper=None):
         self._clock = clock
@@ -98,8 +114,35 @@ class Patches:
         self.saved = []
 
 
+_SOCKET_ORIG = {}
+
+
+def _snapshot_socket_classes():
+    import engineio.socket
+    import engineio.async_socket
+    for cls in (engineio.socket.Socket, engineio.async_socket.AsyncSocket):
+        _SOCKET_ORIG[cls] = {k: cls.__dict__[k] for k in (
+            'handle_post_request', '_websocket_handler', '_send_ping')}
+
+
+_snapshot_socket_classes()
+
+
+def _restore_socket_classes():
+    """admin instrumentation monkey-patches the engine.io socket classes
+    process-wide; undo it between runs."""
+    for cls, orig in _SOCKET_ORIG.items():
+        for k, val in orig.items():
+            if cls.__dict__.get(k) is not val:
+                setattr(cls, k, val)
+        for k in [k for k in list(cls.__dict__) if k.startswith(
+                '_Instrumented')]:
+            delattr(cls, k)
+
+
 def reset_process_globals():
     """Registries that outlive a client or server object."""
+    _restore_socket_classes()
     import engineio.base_client
     import socketio.base_client
     engineio.base_client.connected_clients[:] = []
@@ -259,6 +302,13 @@ class World:
         self.patches = Patches()
         self.closed = False
 
+    def _patch_admin(self, clock):
+        fdt = make_fake_datetime(clock)
+        for m in ('socketio.admin', 'socketio.async_admin'):
+            self.patches.set(m, 'datetime', fdt)
+            self.patches.set(m, 'PID', 4242)
+            self.patches.set(m, 'HOSTNAME', 'simhost')
+
     # registry helpers shared by both worlds -----------------------------------
     def handler_label(self, server, kind, ns, event):
         return (server, kind, ns, event)
@@ -326,6 +376,7 @@ class AsyncWorld(World):
         self.patches.set('socketio.async_client', 'random', cr)
         self.patches.set('engineio.async_client', 'aiohttp',
                          FakeAiohttp(self.net))
+        self._patch_admin(self.loop.time)
         self.ops = []
         self.clients = {}
 
@@ -570,6 +621,7 @@ class ThreadWorld(World):
                          FakeWebSocketModule(self.net, k))
         self.patches.set('socketio.simple_client', 'Event',
                          lambda: SimEvent(k))
+        self._patch_admin(k.time)
         self.driver = make_thread_driver(k)
         self.ops = []
         self.clients = {}
